@@ -61,14 +61,14 @@ class FitYamlWriter(YamlWriterMixin, FitDReprBase):
                 _preface_comment += "# Cost: %s\n" % _rounded_cost
             else:
                 _preface_comment += "# %s: %s\n" % (_gof_name, _gof)
-                _round_gof_per_ndf_sig = max(2, int(-np.floor(np.log(np.abs(_gof) / _ndf) / np.log(10))) + 1)
             if _ndf is not None:
                 _preface_comment += "# ndf: %s\n" % _ndf
-            if _gof is not None:
-                _preface_comment += "# %s/ndf: %s\n\n" % (
-                    _gof_name,
-                    round(_gof / _ndf, _round_gof_per_ndf_sig),
-                )
+            if _gof is not None and _ndf:
+                _gof_per_ndf = _gof / _ndf
+                if _gof_per_ndf != 0 and np.isfinite(_gof_per_ndf):
+                    _round_gof_per_ndf_sig = max(2, int(-np.floor(np.log(np.abs(_gof_per_ndf)) / np.log(10))) + 1)
+                    _gof_per_ndf = round(_gof_per_ndf, _round_gof_per_ndf_sig)
+                _preface_comment += "# %s/ndf: %s\n\n" % (_gof_name, _gof_per_ndf)
 
             # If asymmetric parameters errors were not calculated, check the loaded result dict
             _asymmetric_parameter_errors = self._kafe_object._fitter.asymmetric_fit_parameter_errors_if_calculated
